@@ -895,7 +895,7 @@ IGNORED_CALLS = ("logger.", "logging.", "print", "warnings.")
 
 
 class AV:
-    def __init__(self, sm: SourceModel, inline=None, opaque=(), receivers=None):
+    def __init__(self, sm: SourceModel, inline=None, opaque=(), receivers=None, cha: bool = False):
         """``inline(callee: Func) -> bool`` decides which resolved callees are expanded (default: private helpers,
         nested functions, lambdas).  ``opaque``: dotted names never expanded."""
         self.sm = sm
@@ -903,6 +903,9 @@ class AV:
         self.opaque = set(opaque)
         # {text of a receiver value: class of the package}: method calls on such a value resolve into that class
         self.receivers = dict(receivers or {})
+        # class-hierarchy resolution: a method name defined by exactly one class of the package is that method,
+        # whatever the receiver (used only for second-chance comparisons with everything expanded)
+        self.cha = cha
         self._modenv: dict[str, dict] = {}
         self.call_log: list = []  # (caller Func, call node, value) for every opaque call met (in order)
         self._budget = 200000
@@ -1047,6 +1050,16 @@ class AV:
                 return self._run([guard] + list(st.body) + list(st.orelse) + rest, fr, cont)
             if isinstance(st, ast.Try):
                 r = self._try(st, fr)
+                if r is not None and r[0] == "pret":
+                    # a handler leaves the function, the guarded body goes on: a partial exit under 'raised(T)'
+                    rr = self._run(rest, fr, cont)
+                    if any(rr is x for x in (_FALL, _CONT)):
+                        return r
+                    if any(rr is x for x in (_BREAK, _MIXED)):
+                        return unk("handler exit followed by a loop exit")
+                    if rr[0] == "pret":
+                        return ("pret", mk_or(r[1], rr[1]), r[2] if rr[2] == r[2] else mk_if(r[1], r[2], rr[2]))
+                    return mk_if(r[1], r[2], rr)
                 if r is not None:
                     return r
                 continue
@@ -1136,6 +1149,7 @@ class AV:
     def _try(self, st: ast.Try, fr: Frame):
         """Value returned from inside the try statement (None when it completes normally)."""
         before = dict(fr.env)
+        handler_exits: list = []
         r = self._run(list(st.body) + list(st.orelse), fr, ())
         r = None if r is _FALL else r
         # handlers: a handler whose every path raises does not change the normal value
@@ -1158,8 +1172,12 @@ class AV:
             tn = norm(h.type) if h.type is not None else "BaseException"
             cond = ("call", "raised", (C(tn),), ())
             if r is not None or hr is not None:
-                if r is not None and hr is not None:
+                if r is not None and hr is not None and r[0] != "pret":
                     r = mk_if(cond, hr, r)
+                elif r is None and hr is not None and hr[0] == "pret":
+                    handler_exits.append((mk_and(cond, hr[1]), hr[2]))
+                elif r is None and hr is not None and not any(hr is x for x in (_BREAK, _CONT, _MIXED)):
+                    handler_exits.append((cond, hr))
                 else:
                     r = unk("try/except where only one side returns")
                 continue
@@ -1173,6 +1191,13 @@ class AV:
         fr.env.update(after)
         if st.finalbody:
             self._run(list(st.finalbody), fr, ())
+        if handler_exits and r is None:
+            val = handler_exits[-1][1]
+            for c_, v_ in reversed(handler_exits[:-1]):
+                val = mk_if(c_, v_, val)
+            return ("pret", _fold_or([c_ for c_, _v in handler_exits]), val)
+        if handler_exits:
+            return unk("try/except where the body and a handler return")
         return r
 
     def _for(self, st: ast.For, fr: Frame, run_else: bool = True):
@@ -1420,6 +1445,10 @@ class AV:
         if isinstance(target, (ast.Tuple, ast.List)):
             n = len(target.elts)
             star = [i for i, e in enumerate(target.elts) if isinstance(e, ast.Starred)]
+            # unpacking a NamedTuple built by its constructor: the fields in declaration order
+            fields_, vals_ = self._nt_fields_of_ctor(v)
+            if fields_ is not None and len(fields_) == n and not star and all(f_ in vals_ for f_ in fields_):
+                v = ("list", tuple(vals_[f_] for f_ in fields_))
             known = v[0] == "list" and not any(i[0] in ("spread", "when") for i in v[1])
             for i, e in enumerate(target.elts):
                 if isinstance(e, ast.Starred):
@@ -1638,6 +1667,9 @@ class AV:
                 origin = self._imports(fr.rel).get(head)
                 if origin and not origin.startswith("gotranx"):
                     d_ = origin + d_[len(head):]
+                ev_ = self._enum_member_value(d_)
+                if ev_ is not None:
+                    return ev_
                 return ("sym", canon_sym(d_))
             return self._attr_nt(self._ev(n.value, fr), n.attr)
         if isinstance(n, ast.Subscript):
@@ -1671,6 +1703,19 @@ class AV:
             self._bind(n.target, v, fr)
             return v
         return unk(type(n).__name__)
+
+    def _enum_member_value(self, dotted_name: str):
+        """`Cls.member.value` / `Cls.member.name` for an Enum class of the package with constant members"""
+        parts = dotted_name.split(".")
+        if len(parts) < 3 or parts[-1] not in ("value", "name"):
+            return None
+        cname, mem = parts[-3], parts[-2]
+        for (_rel, qn), cobj in self.sm.classes.items():
+            if qn == cname and any(b.split(".")[-1] in ("Enum", "IntEnum", "StrEnum") for b in cobj.bases):
+                for st in cobj.node.body:
+                    if isinstance(st, ast.Assign) and len(st.targets) == 1 and isinstance(st.targets[0], ast.Name) and st.targets[0].id == mem and isinstance(st.value, ast.Constant):
+                        return C(mem) if parts[-1] == "name" else C(st.value.value)
+        return None
 
     def _nt_fields_of_ctor(self, base):
         if base[0] == "call" and base[1].split(".")[-1] in self._namedtuples():
@@ -1947,6 +1992,10 @@ class AV:
                         m_ = cobj.methods[fn.attr]
                         if not any(x.split(".")[-1] in ("property", "cached_property", "abstractmethod", "staticmethod", "classmethod") for x in m_.decorators()):
                             callee = m_
+        if callee is None and self.cha and isinstance(fn, ast.Attribute) and not fn.attr.startswith("__"):
+            cands = [cobj.methods[fn.attr] for cobj in self.sm.classes.values() if fn.attr in cobj.methods]
+            if len(cands) == 1 and not any(x.split(".")[-1] in ("property", "cached_property", "abstractmethod", "staticmethod", "classmethod") for x in cands[0].decorators()):
+                callee = cands[0]
         if callee is not None and fr.depth < MAX_DEPTH and (dotted(fn) or "") not in self.opaque and self.inline(callee):
             bound_self = isinstance(fn, ast.Attribute) and not _is_static(callee) and not (isinstance(fn.value, ast.Name) and fn.value.id == callee.qualname.split(".")[0])
             self._mutated_params = {}
